@@ -3,11 +3,14 @@
 package main
 
 import (
+	"bytes"
+	cryptorand "crypto/rand"
 	"errors"
 	"fmt"
 	"io"
 	"math/big"
 	"strconv"
+	"sync"
 
 	secp "github.com/ModChain/secp256k1"
 )
@@ -65,6 +68,24 @@ func init() {
 		}
 		r := &scriptedReader{data: data, chunks: chunks, term: term, errWithData: a[3] == "1"}
 		k, err := secp.GeneratePrivateKeyFromRand(r)
+		// GeneratePrivateKey (the crypto/rand front end) on the same stream: crypto/rand.Reader is swapped for an
+		// identical scripted reader for the duration of the call (under a lock: it is a process-wide variable)
+		{
+			r2 := &scriptedReader{data: data, chunks: chunks, term: term, errWithData: a[3] == "1"}
+			randMu.Lock()
+			saved := cryptorand.Reader
+			cryptorand.Reader = r2
+			k2, err2 := secp.GeneratePrivateKey()
+			cryptorand.Reader = saved
+			randMu.Unlock()
+			if (err == nil) != (err2 == nil) || r2.pos != r.pos || (err == nil && !bytes.Equal(k.Serialize(), k2.Serialize())) {
+				g := "err"
+				if err2 == nil {
+					g = hx(k2.Serialize())
+				}
+				return fmt.Sprintf("FRONT-ENDS-DISAGREE GeneratePrivateKey=%s used=%d FromRand used=%d", g, r2.pos, r.pos)
+			}
+		}
 		if err != nil {
 			name := "other:" + err.Error()
 			switch {
@@ -113,6 +134,8 @@ func splitComma(s string) []string {
 	}
 	return append(out, cur)
 }
+
+var randMu sync.Mutex
 
 func genC19(h *H) {
 	bs := h.boundaryInts()
